@@ -2,7 +2,8 @@
    render nodes, optimize, nodeEqual, NumVariants, renderAllVariants), variant.go (prepareVariantForParsing,
    parsePatternVariant, PatternVariant.Compare) and patterns.go (ParsePathPattern, HighestPrecedencePattern).
    Patterns and paths are ASCII byte strings (the Go code works on runes; the driver sends ASCII only).
-   doublestar.Match and regexp submatching are third-party: they are not modelled here (see the case types below).
+   doublestar.Match (third party) is ported as ds_match and pinned by the differential run; regexp submatching is not modelled
+   (Compare takes the submatches as input).
    No proofs in this file. *)
 From Coq Require Import List NArith ZArith Bool.
 Import ListNotations.
@@ -370,6 +371,137 @@ Definition highest {A} (cmp : A -> A -> comparison) (l : list A) : option A :=
   | x :: r => Some (fold_left (fun cur c => match cmp cur c with Lt => c | _ => cur end) r x)
   end.
 
+(* ------------------------------------------------------------------ doublestar.Match (github.com/bmatcuk/doublestar/v4 v4.6.1,
+   third party) ported function by function for the pattern language ParsePathPattern accepts (no character classes, ASCII):
+   doMatchWithSeparator (separator = slash; the iterative matcher with one star and one doublestar backtrack point, groups
+   handled by splicing each alternative into the pattern text and re-entering), isZeroLengthPattern,
+   indexMatchedClosingAlt, indexNextAlt; then PathPatternMatches of patterns.go. Pattern errors count as no match.
+   Indices are nat; fuel bounds the depth of the loop (see dmatch_fuel). *)
+Definition at_ (l : bytes) (i : nat) : N := nth i l 0.
+
+(* indexMatchedClosingAlt: index of the brace closing the group whose opening brace was just consumed *)
+Fixpoint closing_alt (s : bytes) (alts i : nat) : option nat :=
+  match s with
+  | [] => None
+  | c :: r =>
+      if c =? cBSL then match r with [] => None | _ :: r2 => closing_alt r2 alts (S (S i)) end
+      else if c =? cOPEN then closing_alt r (S alts) (S i)
+      else if c =? cCLOSE then match alts with
+                               | S O => Some i
+                               | S a => closing_alt r a (S i)
+                               | O => None
+                               end
+      else closing_alt r alts (S i)
+  end.
+
+(* the alternatives of the inside of a group (indexNextAlt applied repeatedly): split at the commas of nesting depth 1;
+   cur = current alternative reversed *)
+Fixpoint split_alts (s : bytes) (alts : nat) (cur : bytes) : list bytes :=
+  match s with
+  | [] => [rev cur]
+  | c :: r =>
+      if c =? cBSL then match r with [] => [rev (c :: cur)] | c2 :: r2 => split_alts r2 alts (c2 :: c :: cur) end
+      else if c =? cOPEN then split_alts r (S alts) (c :: cur)
+      else if c =? cCLOSE then split_alts r (pred alts) (c :: cur)
+      else if (c =? cCOMMA) && Nat.eqb alts 1 then rev cur :: split_alts r alts []
+      else split_alts r alts (c :: cur)
+  end.
+
+Definition zl_base (p : bytes) : bool :=
+  beq p [] || beq p [cSTAR] || beq p [cSTAR; cSTAR] || beq p [cSLASH; cSTAR; cSTAR] || beq p [cSTAR; cSTAR; cSLASH]
+  || beq p [cSLASH; cSTAR; cSTAR; cSLASH].
+
+(* isZeroLengthPattern *)
+Fixpoint zero_len (fuel : nat) (p : bytes) : bool :=
+  match fuel with
+  | O => false
+  | S f =>
+      if zl_base p then true
+      else match p with
+           | c :: r => if c =? cOPEN then
+                         match closing_alt r 1 0 with
+                         | Some k => existsb (fun a => zero_len f (a ++ skipn (S k) r)) (split_alts (firstn k r) 1 [])
+                         | None => false
+                         end
+                       else false
+           | [] => false
+           end
+  end.
+
+(* first index >= from of a slash in name *)
+Fixpoint find_sep (name : bytes) (from i : nat) : option nat :=
+  match name with
+  | [] => None
+  | c :: r => if Nat.leb from i && (c =? cSLASH) then Some i else find_sep r from (S i)
+  end.
+
+(* doMatchWithSeparator: dsP/dsN = doublestar pattern/name backtrack, stP/stN = star backtrack (None = -1),
+   pi/ni = patIdx/nameIdx, sos = startOfSegment *)
+Fixpoint dmatch (fuel : nat) (pat name : bytes) (dsP dsN stP stN : option nat) (pi ni : nat) (sos : bool) {struct fuel} : bool :=
+  match fuel with
+  | O => false
+  | S f =>
+      let lp := length pat in
+      let ln := length name in
+      if Nat.leb ln ni then zero_len (S lp) (skipn pi pat)
+      else
+        let ds_back (_ : unit) : bool :=
+          match dsP, dsN with
+          | Some dp, Some dn => match find_sep name dn 0 with
+                                | Some j => dmatch f pat name dsP (Some (S j)) stP stN dp (S j) true
+                                | None => false
+                                end
+          | _, _ => false
+          end in
+        let back (_ : unit) : bool :=
+          match stP, stN with
+          | Some sp, Some sn => if negb (at_ name sn =? cSLASH) then dmatch f pat name dsP dsN stP (Some (S sn)) sp (S sn) false
+                                else ds_back tt
+          | _, _ => ds_back tt
+          end in
+        if Nat.leb lp pi then back tt
+        else
+          let c := at_ pat pi in
+          if c =? cSTAR then
+            let pi1 := S pi in
+            if Nat.ltb pi1 lp && (at_ pat pi1 =? cSTAR) then
+              let pi2 := S pi1 in
+              if sos then
+                if Nat.leb lp pi2 then true
+                else if at_ pat pi2 =? cSLASH then dmatch f pat name (Some (S pi2)) (Some ni) None None (S pi2) ni sos
+                else dmatch f pat name dsP dsN (Some pi2) (Some ni) pi2 ni false
+              else dmatch f pat name dsP dsN (Some pi2) (Some ni) pi2 ni false
+            else dmatch f pat name dsP dsN (Some pi1) (Some ni) pi1 ni false
+          else if c =? cQM then
+            if at_ name ni =? cSLASH then back tt else dmatch f pat name dsP dsN stP stN (S pi) (S ni) false
+          else if c =? cOPEN then
+            match closing_alt (skipn (S pi) pat) 1 0 with
+            | Some k =>
+                let inner := firstn k (skipn (S pi) pat) in
+                let rest := skipn (S (S pi + k)) pat in
+                existsb (fun a => dmatch f (firstn pi pat ++ a ++ rest) name dsP dsN stP stN pi ni true) (split_alts inner 1 [])
+            | None => false
+            end
+          else if c =? cBSL then
+            if Nat.leb lp (S pi) then false
+            else let e := at_ pat (S pi) in
+                 if e =? at_ name ni then dmatch f pat name dsP dsN stP stN (S (S pi)) (S ni) (e =? cSLASH) else back tt
+          else if c =? at_ name ni then dmatch f pat name dsP dsN stP stN (S pi) (S ni) (c =? cSLASH)
+          else back tt
+  end.
+
+Definition dmatch_fuel (pat name : bytes) : nat := 16 + 2 * (length pat + 2) * (length name + 2) * (length name + 2).
+Definition ds_match (pat name : bytes) : bool := dmatch (dmatch_fuel pat name) pat name None None None None 0 0 true.
+
+Definition ends_slash (s : bytes) : bool := match rev s with c :: _ => c =? cSLASH | [] => false end.
+
+(* PathPatternMatches (patterns.go) *)
+Definition path_pattern_matches (pattern path : bytes) : bool :=
+  if ends_slash pattern && negb (ends_slash path) then false
+  else if ds_match pattern path then true
+  else if ends_slash pattern then false
+  else ds_match (pattern ++ [cSLASH]) path.
+
 (* ------------------------------------------------------------------ correspondence / monitor interface *)
 Fixpoint bl_eqb (a b : list bytes) : bool :=
   match a, b with
@@ -383,6 +515,8 @@ Fixpoint comps_eqb (a b : list comp) : bool :=
   | (t, x) :: a', (u, y) :: b' => (t =? u) && beq x y && comps_eqb a' b'
   | _, _ => false
   end.
+Fixpoint bools_eqb (a b : list bool) : bool :=
+  match a, b with [], [] => true | x :: a', y :: b' => Bool.eqb x y && bools_eqb a' b' | _, _ => false end.
 Definition cmp_code (c : comparison) : Z := match c with Lt => (-1)%Z | Eq => 0%Z | Gt => 1%Z end.
 
 Inductive case :=
@@ -410,8 +544,13 @@ Definition mismatch (c : case) : bool :=
   | CPat p obs =>
       match parse_pattern p, obs with
       | None, None => false
-      | Some t, Some (n, raws, vars, _) =>
+      | Some t, Some (n, raws, vars, paths) =>
           negb (n =? num_variants64 t)%Z
+          || existsb (fun pm => match pm with
+                                | (path, orig, vm) =>
+                                    negb (Bool.eqb (path_pattern_matches p path) orig)
+                                    || negb (bools_eqb (map (fun v => path_pattern_matches (fst v) path) vars) vm)
+                                end) paths
           || (if (0 <? n)%Z && (n <=? 1000)%Z      (* `if`, not andb: the expansion must not be computed for a wrapped count *)
               then (negb (bl_eqb (expand t) raws)
                   || match all_some (map components raws) with
